@@ -278,6 +278,10 @@ class Exec:
         if isinstance(obj, SObj):
             if attr in obj._fields:
                 return obj._fields[attr]
+            if obj._lazy and attr in obj._ftypes:
+                v = self.mk(obj._ftypes[attr], f"{obj._nm}.{attr}")
+                obj._fields[attr] = v
+                return v
             # method / property?
             for c in obj._cls_set:
                 m = source.find_method(c, attr)
